@@ -18,12 +18,15 @@ type C11Case struct {
 	Choices []string `json:"choices,omitempty"`
 	Value   string   `json:"value"`
 	Via     string   `json:"via"` // "arg" (--opt=value), "default" (default tag), "env"
+	// LateChoices: the choices are assigned to Option.Choices (a public field)
+	// after the parser was built instead of being declared by tags
+	LateChoices bool `json:"late_choices,omitempty"`
 }
 
 var _ = Register("C11", func() interface{} { return new(C11Case) }, func(c interface{}) string { return c11Oracle(c.(*C11Case)) })
 
 var c11Kinds = []Kind{KString, KStringPtr, KStringSlice, KInt, KInt8, KInt16, KInt32, KInt64, KUint, KUint8, KUint16, KUint32, KUint64,
-	KIntSlice, KIntPtr, KUint8Slice, KFloat32, KFloat64, KFloatSlice, KDuration, KDurSlice, KMapSS, KMapSI, KMapIS, KUpper, KUpperSlice, KFuncI, KFuncS, KTri}
+	KIntSlice, KIntPtr, KUint8Slice, KFloat32, KFloat64, KFloatSlice, KDuration, KDurSlice, KDurPtr, KMapFS, KMapSS, KMapSI, KMapIS, KUpper, KUpperSlice, KFuncI, KFuncS, KTri}
 
 var c11FloatPool = []string{"0", "-0", "1", "1.5", "-2.25", "1e3", "1E3", ".5", "5.", "+1", "1e", "e1", ".", "", " 1", "1 ", "1,5", "1_0", "1_0.5",
 	"3.4028234e38", "3.4028235e38", "3.4028236e38", "3.5e38", "-3.5e38", "1e39", "1e38", "1.401298464324817e-45", "1e-46", "7e-46",
@@ -176,6 +179,7 @@ func genC11(t *rapid.T) *C11Case {
 			c.Value = c.Choices[0] + "x"
 		}
 	}
+	c.LateChoices = len(c.Choices) > 0 && rapid.IntRange(0, 3).Draw(t, "lateChoices") == 0
 	c.Via = []string{"arg", "default", "env"}[weighted(t, "via", []int{6, 2, 2})]
 	if k.IsFunc() || (k == KTri && c.Via == "default") {
 		c.Via = "arg"
@@ -210,7 +214,23 @@ func c11Oracle(c *C11Case) string {
 	case "env":
 		env = map[string]string{"VPC11_OPT": c.Value}
 	}
-	rr := RunReal(d, args, env, nil)
+	var rr *RealResult
+	if c.LateChoices && len(c.Choices) > 0 {
+		d.Root.G.Groups[0].Options[0].Choices = nil
+		rr = &RealResult{}
+		rr.Panic = Safely(func() {
+			b := Build(d)
+			rr.B, rr.SetupErr = b, b.Err
+			if b.Err != nil {
+				return
+			}
+			b.P.FindOptionByLongName("opt").Choices = append([]string{}, c.Choices...)
+			withEnv(env, func() { rr.Rest, rr.Err = b.P.ParseArgs(args) })
+		})
+		st.Label("choices assigned in code")
+	} else {
+		rr = RunReal(d, args, env, nil)
+	}
 	if rr.SetupErr != nil {
 		return "unexpected setup error: " + rr.SetupErr.Error()
 	}
